@@ -32,7 +32,7 @@ for p in props:
           "exploration":"Generated-input search (seeded proptest + corpus replay, bounded-exhaustive enumeration where stated in the evidence) against an explicit oracle after every step; finds violations, does not prove absence."}[cat]
     checks.append({"property_id":i,"quick_cmd":f"./check {i} quick","thorough_cmd":f"./check {i} thorough","evidence_file":f"evidence/{i}.json","replay_cmd_template":f"./check {i} --replay {{path}}","engine":eng,
       "level_claimed":{"category":cat,"text":text,"design_ref":f"DESIGN.md section {ref}"},
-      "level_note":"Trusted: the harness's reference model, ledger-instrumented payload types, byte decoders and iterator probes (validated against deliberately broken trees: /verif/mutants and the 164 independently seeded changes in /verif/seeded, see DESIGN.md section 10). Bounds: capacities {0,1,2,3,4,6,9,17,32,33,64,70} (pairs {0,1,2,3,5}), histories <= 40 ops (96 thorough), request arrays <= 5 or 32/33/64/65 keys; Map<u16,u32,300> with 200-key requests; long histories of 400 ops on capacities <= 5. micromap's generic code is compiled unoptimised inside the harness crates, with debug assertions and overflow checks on (dev run) and off (release run); optimised + AddressSanitizer and Miri only in the thorough tier.",
+      "level_note":"Trusted: the harness's reference model, ledger-instrumented payload types, byte decoders and iterator probes (validated against deliberately broken trees: /verif/mutants and the 160 independently seeded changes in /verif/seeded, see DESIGN.md section 10). Bounds: capacities {0,1,2,3,4,6,9,17,32,33,64,70} (pairs {0,1,2,3,5}), histories <= 40 ops (96 thorough), request arrays <= 5 or 32/33/64/65 keys; Map<u16,u32,300> with 200-key requests; long histories of 400 ops on capacities <= 5. micromap's generic code is compiled unoptimised inside the harness crates, with debug assertions and overflow checks on (dev run) and off (release run); optimised + AddressSanitizer and Miri only in the thorough tier.",
       "technique":t})
 m={"version":1,"setup_cmd":"./setup.sh",
 "hooks":{"guard":"micromap_verif","enable":"no source hooks are needed (all observation points are public API, payload trait impls, the global allocator and addresses); the cfg name is reserved","baseline_off_cmd":"cd /repo && cargo test --workspace --no-fail-fast --offline","source_commits":[],"add_only":True},
